@@ -163,7 +163,7 @@ PROPS["C06"] = {
 PROPS["C19"] = {
     "harnesses": [
         {"pkg": "api", "name": "VerifC19_Handlers", "quick": {}, "thorough": {}, "reach": ["end", "malformed"],
-         "bounds": {"routes": "12 JSON routes", "runner outcome": "ok / error / error with partial result", "body": "well-formed / malformed"}},
+         "bounds": {"routes": "14 JSON routes (all of routes.go except logs, scale, project state - own harnesses - and the websocket)", "runner outcome": "ok / ok with empty result / error / error with partial result", "body": "well-formed / malformed", "response body": "compared with what the recording runner returned (name, state, info, list, ports, result map, error text)"}},
         {"pkg": "api", "name": "VerifC19_Query", "quick": {}, "thorough": {},
          "bounds": {"route": "GET /project/state", "withMemory": "absent / true / false / 1 / yes / empty / 2 / 'true '"}},
         {"pkg": "api", "name": "VerifC19_Numeric", "quick": {}, "thorough": {}, "reach": ["end", "nonnumeric"],
@@ -216,7 +216,7 @@ _lv("C05", "Real runner on the chain a<-b<-c, all 9 combinations of the three un
     "Stub Commander; go-health scheduler stubbed (no check delivered); os.Stat stub for the bad directory; depth 3.")
 _lv("C15", "mergeSlice(toEnvVarMap,toEnvVarSlice) on base<=2 / override<=1 entries over keys {A,B} with every value over {'=','x'} up to length 2 (3 thorough): result equals last-wins lookup of override-else-base, byte for byte. Fold: real loadProjectFromFile/loadExtendProject/merge over an extends chain of 1-3 files, each setting log_level and defining process svc or not: the nearest file that sets a value wins, FileNames and fold order agree.",
     "mergo.Map on flat maps bound to its contract under symgo (real mergo natively); mergo's deep merge of ProcessConfig and YAML are outside (reduced scope).")
-_lv("C19", "Every JSON handler of pc_api.go against a recording IProject with symbolic outcomes: right operation once with decoded parameters, 400/207/200 mapping, malformed body or non-numeric path parameter -> 400 without a call, never 5xx.",
+_lv("C19", "Every JSON handler of pc_api.go against a recording IProject with symbolic outcomes: right operation once with decoded parameters, 400/207/200 mapping, response body = what the runner returned (faithful view), malformed body or non-numeric path parameter -> 400 without a call, never 5xx.",
     "gin.Context response/body methods stubbed under symgo (real gin test context natively); routing, HTTP, JSON and the client package outside (reduced scope).")
 
 PROPS["C01"] = {
